@@ -120,18 +120,20 @@ var libStoreModel = map[string]struct {
 	dst  int
 	srcs []int
 }{
-	"encoding/json.Unmarshal":                              {1, []int{0}},
-	"encoding/asn1.Unmarshal":                              {1, []int{0}},
-	"google.golang.org/protobuf/proto.Unmarshal":           {1, []int{0}},
+	"encoding/json.Unmarshal":                                 {1, []int{0}},
+	"encoding/asn1.Unmarshal":                                 {1, []int{0}},
+	"google.golang.org/protobuf/proto.Unmarshal":              {1, []int{0}},
 	"google.golang.org/protobuf/encoding/prototext.Unmarshal": {1, []int{0}},
 }
 
 // buildWrites computes, once, every write of every repository function with
 // places evaluated in the function's unknown context. It proceeds in phases so
 // that a place which itself depends on a load sees the simpler writes:
-//   A: stores and library-model writes whose place needs no load;
-//   B: the remaining stores / library-model writes;
-//   C: objects that opaque (interface / function-value) calls may overwrite.
+//
+//	A: stores and library-model writes whose place needs no load;
+//	B: the remaining stores / library-model writes;
+//	C: objects that opaque (interface / function-value) calls may overwrite.
+//
 // Values memoised while the write set was incomplete are dropped afterwards.
 func (e *Engine) buildWrites() {
 	if e.writesBuilt {
